@@ -276,7 +276,8 @@ class QChem(autode.wrappers.methods.ExternalMethodOEGH):
     @staticmethod
     def _raw_scf_grad(calc):
         grad = []
-        n_grad_lines = (calc.molecule.n_atoms // 6 + 1) * 4
+        # Blocks of 4 lines, each containing up to 6 atoms
+        n_grad_lines = ((calc.molecule.n_atoms + 5) // 6) * 4
 
         for i, line in enumerate(calc.output.file_lines):
             if "Gradient of SCF Energy" not in line:
@@ -346,7 +347,10 @@ class QChem(autode.wrappers.methods.ExternalMethodOEGH):
             )
 
         for i, line in enumerate(lines):
-            if "Mass-Weighted Hessian Matrix" not in line:
+            if (
+                "Mass-Weighted Hessian Matrix" not in line
+                or "Projected" in line
+            ):
                 continue
 
             start_idx = i + 3
